@@ -893,9 +893,17 @@ class Models(object):
 
     def np_vdot(self, a, b):
         """sum(conj(a) * b) over the flattened arguments (numpy conjugates the first one)."""
+        same_operand = a is b
         a, b = self.np_asarray(a).ravel(), self.np_asarray(b).ravel()
         if a.size != b.size:
             raise InterpValueError('cannot reshape array of size %d into shape (%d,)' % (b.size, a.size))
+        if same_operand or all(x is y for x, y in zip(a.items(), b.items())):
+            # vdot(w, w) = sum |w_k|^2: real and non-negative by construction
+            acc = 0
+            for x in a.items():
+                m = self.scalar_fn('abs', x)
+                acc = s_add(acc, s_mul(m, m))
+            return acc
         acc = 0
         for x, y in zip(a.items(), b.items()):
             acc = s_add(acc, s_mul(self.scalar_fn('conj', x), y))
